@@ -97,6 +97,20 @@ def run(res, tier, replay):
         scns.append(sc); meta.append(("tny-hist", 7000 + i, order))
         for m_ in range(mems):
             scns.append(scenario.Scn().file("in0.cab", cab).op("cab_new").op("cab_open", "c0", "in0.cab").op("cab_extract", "c0", m_, "ref")); meta.append(("tny-ref", 7000 + i, m_))
+    # directed (own generator state, the same on every run): one folder of three blocks with a damaged last block; a member behind the damage
+    # first (fails while skipping, nothing flushed), then the member at offset 0 and the one reaching into the damage - the two recorded
+    # manifestations of the decoder that is kept after it has failed (known_findings.json)
+    for di, (meth, lens, order) in enumerate(((("qtm", 16), [100, 72900, 1000], [2, 0, 1]), (("qtm", 15), [100, 40000, 30000, 3000], [3, 2, 0]))):
+        from vlib import cabfmt
+        r8 = random.Random(8)
+        fo = cabfmt.Folder(meth, [cabfmt.Member(b"d%d.bin" % j, length=lens[j]) for j in range(len(lens))])
+        cab = bytearray(cabfmt.build_single([fo], r8, with_ck=True))
+        cab[-5] ^= 0x55                      # a payload byte of the last block (checksummed)
+        sc = scenario.Scn().file("in0.cab", bytes(cab)).op("cab_new").op("cab_open", "c0", "in0.cab")
+        for j, m_ in enumerate(order): sc.op("cab_extract", "c0", m_, "o%d_%d" % (j, m_))
+        scns.append(sc); meta.append(("dmg-hist", 8000 + di, order))
+        for m_ in range(len(lens)):
+            scns.append(scenario.Scn().file("in0.cab", bytes(cab)).op("cab_new").op("cab_open", "c0", "in0.cab").op("cab_extract", "c0", m_, "ref")); meta.append(("dmg-ref", 8000 + di, m_))
     trs = scenario.run_scenarios(exe, scns)
     ref = {}
     for t, m in zip(trs, meta):
@@ -115,8 +129,8 @@ def run(res, tier, replay):
         for j, o in enumerate(ex):
             idx = int(o.kv["idx"]) if "idx" in o.kv else m[2][j]
             want = ref.get((m[0][:3], m[1], idx)); ncalls += 1
-            if m[0] in ("rcy-hist", "tny-hist"): idx = m[2][j]
-            fol = m[2][idx] if m[0] == "cab-hist" and idx < len(m[2]) else None
+            if m[0] in ("rcy-hist", "tny-hist", "dmg-hist"): idx = m[2][j]
+            fol = m[2][idx] if m[0] == "cab-hist" and idx < len(m[2]) else (0 if m[0] == "dmg-hist" else None)
             if want is None: continue
             if (o.kv.get("st"), o.out) != want:
                 # same failure status, different number of bytes delivered before the failure: recorded finding (known_findings.json)
